@@ -354,6 +354,39 @@ fn hist_json(cfg: &Config, init: S4, h: &[Op]) -> Value {
     json!({"config": cfg.to_json(), "initial_state": format!("{init:?}"), "history": h.iter().map(|o| o.to_json()).collect::<Vec<_>>(), "rust": rust})
 }
 
+
+/// Complete unit-test source replaying a history on a builder-built animator (public API only).
+fn animator_unit_test(cfg: &Config, init: S4, h: &[Op], prop: Prop, extra: &[String]) -> String {
+    let mut s = String::from(UNIT_TEST_HEADER);
+    s += "\n#[derive(Clone, Copy, Debug, Default, PartialEq, Eq, State)]\nenum S4 { #[default] X, Y, U1, U2 }\n\nfn build() -> EnumStateAnimator<S4, PTimeline> {\n";
+    for (i, name) in ["x", "y"].iter().enumerate() {
+        s += &format!("    let {name} = MergedTimeline::of(vec![{}]);\n", cfg.specs[i].iter().map(|sp| sp.rust_source().replace('\n', "\n        ")).collect::<Vec<_>>().join(",\n        "));
+    }
+    s += &format!("    StateAnimatorBuilder::<S4, PTimeline>::new().from_state(S4::{init:?}).from_values({}).on(S4::X, x).on(S4::Y, y).build()\n}}\n\n#[test]\nfn replay_case() {{\n    let mut a = build();\n", initial_values().rust_expr());
+    for (i, op) in h.iter().enumerate() {
+        if i + 1 == h.len() {
+            s += "    let before = a.current_values().clone();\n    let _ = &before;\n";
+        }
+        s += &format!("    a.{};\n    println!(\"{} -> {{:?}} {{:?}} ended={{}}\", a.current_state(), a.current_values(), a.is_ended());\n", op.name().replace("set_state(", "set_state(&S4::"), op.name());
+    }
+    match prop {
+        Prop::C04 => s += "    assert_eq!(format!(\"{:?}\", before), format!(\"{:?}\", a.current_values()), \"set_state changed current_values\");\n",
+        Prop::C06 => {
+            s += "    let mut b = build();\n";
+            for op in normal_form(init, h) {
+                s += &format!("    b.{};\n", op.name().replace("set_state(", "set_state(&S4::"));
+            }
+            s += "    assert_eq!(format!(\"{:?} {}\", a.current_values(), a.is_ended()), format!(\"{:?} {}\", b.current_values(), b.is_ended()), \"the same elapsed time delivered differently gives different results\");\n";
+        }
+        _ => {}
+    }
+    for e in extra {
+        s += &format!("    {e}\n");
+    }
+    s += "}\n";
+    s
+}
+
 fn hname(h: &[Op]) -> String {
     h.iter().map(|o| o.name()).collect::<Vec<_>>().join("; ")
 }
@@ -432,7 +465,17 @@ pub fn check_history(cfg: &Config, init: S4, h: &[Op], prop: Prop, rank: u64, ac
         let b = post.values.bits();
         acc.outcomes.insert(b[0] ^ (b[1] << 20) ^ (b[2] << 7) ^ (post.state as u64) << 60 ^ (post.ended as u64) << 59);
     }
-    let mk = |what: String| (format!("{what} | config X={} Y={} variant {} init {init:?} | history: {}", cfg.names[0], cfg.names[1], cfg.variant, hname(h)), hist_json(cfg, init, h));
+    let mk = |what: String| {
+        let mut extra = vec![format!("// reported: {}", what.replace('\n', " "))];
+        match prop {
+            Prop::C07 => extra.push(format!("assert_eq!(a.is_ended(), {}, \"is_ended\");", model.ended(cfg))),
+            Prop::C05 => extra.push(format!("assert_eq!(*a.current_state(), S4::{:?});", model.cur)),
+            _ => {}
+        }
+        let mut j = hist_json(cfg, init, h);
+        j["unit_test"] = json!(animator_unit_test(cfg, init, h, prop, &extra));
+        (format!("{what} | config X={} Y={} variant {} init {init:?} | history: {}", cfg.names[0], cfg.names[1], cfg.variant, hname(h)), j)
+    };
     match prop {
         Prop::C04 => {
             if let Op::Set(s) = last {
